@@ -42,7 +42,7 @@ def generated_items(seed, tier, bias, scale=1.0):
         items.append(it)
     # the directed families of C05/C06 (hybrids in arms, conditions, arguments, loops; unbraced arms; statement-expressions in both arms)
     for it in gen.hybrid_programs(random.Random(seed), 0):
-        if tier == "thorough" or not it["name"].startswith("se;") or rng.random() < 0.4:
+        if tier == "thorough" or not it["name"].startswith("se;") or it["name"].startswith("se;bool") or rng.random() < 0.4:
             items.append(dict(name="hyb:" + it["name"], text=it["text"], subs=it.get("subs", [])))
     for c in ("(RsV > 5)", "(RsV + RtV)", "(RsV && RtV)", "RsV", "!RtV", "(clz32(RsV) > 3)"):
         items.append(dict(name=f"sethen:{c}", text=f"{{ RdV = {c} ? ({{ set_usr_field(bundle, HEX_REG_FIELD_USR_OVF, 1); 7; }}) : RsV; }}"))
